@@ -543,5 +543,5 @@ func run03(c drv.Case, res *drv.Result) {
 }
 
 func TestC03(t *testing.T) {
-	drv.Main(t, drv.Driver{ID: "C03", Gen: gen03, Run: run03, CaseTimeout: 3 * time.Minute})
+	drv.Main(t, drv.Driver{ID: "C03", Gen: gen03, Run: run03, CaseTimeout: 15 * time.Minute})
 }
